@@ -273,6 +273,53 @@ Proof. unfold norm. apply strip_idem. Qed.
 Lemma norm_idem v : norm (norm v) = norm v.
 Proof. unfold norm at 1. now rewrite sortrec_norm, strip_norm. Qed.
 
+(* ---- unsign: dropping the sign of float zeros commutes with sorting and stripping ---- *)
+Lemma unsign_zero_idem f : unsign_zero (unsign_zero f) = unsign_zero f.
+Proof. destruct f as [n m e]. cbn. destruct (m =? 0) eqn:E; cbn; [reflexivity | now rewrite E]. Qed.
+
+Lemma is_null_unsign v : is_null (unsign v) = is_null v.
+Proof. destruct v; auto. Qed.
+
+Lemma unsign_obj m : unsign (JObj m) = JObj (map (onval unsign) m).
+Proof. reflexivity. Qed.
+
+Lemma unsign_idem v : unsign (unsign v) = unsign v.
+Proof.
+  induction v using jv_ind2; auto.
+  - cbn. now rewrite unsign_zero_idem.
+  - cbn. f_equal. rewrite map_map. apply map_ext_Forall. auto.
+  - rewrite !unsign_obj. f_equal. rewrite map_map. apply map_ext_Forall.
+    eapply Forall_impl; [|exact H]. cbn. intros a Ha. unfold onval. cbn. now rewrite Ha.
+Qed.
+
+Lemma strip_unsign v : strip (unsign v) = unsign (strip v).
+Proof.
+  induction v using jv_ind2; auto.
+  - cbn. f_equal. rewrite !map_map. apply map_ext_Forall. auto.
+  - rewrite unsign_obj, !strip_obj, unsign_obj. f_equal.
+    rewrite <- (filter_notnull_map unsign) by apply is_null_unsign.
+    f_equal. rewrite !map_map. apply map_ext_Forall.
+    eapply Forall_impl; [|exact H]. cbn. intros a Ha. unfold onval. cbn. now rewrite Ha.
+Qed.
+
+Lemma sortrec_unsign v : sortrec (unsign v) = unsign (sortrec v).
+Proof.
+  induction v using jv_ind2; auto.
+  - cbn. f_equal. rewrite !map_map. apply map_ext_Forall. auto.
+  - rewrite unsign_obj, !sortrec_obj, unsign_obj. f_equal.
+    change (map (onval unsign)) with (map (fun kv : member => (fst kv, unsign (snd kv)))).
+    rewrite sort_map_val. f_equal.
+    rewrite !map_map. apply map_ext_Forall.
+    eapply Forall_impl; [|exact H]. cbn. intros a Ha. unfold onval. cbn. now rewrite Ha.
+Qed.
+
+Lemma norm_unsign v : norm (unsign v) = unsign (norm v).
+Proof. unfold norm. now rewrite sortrec_unsign, strip_unsign. Qed.
+
+(* norm v1 = norm v2 is the finer relation *)
+Lemma unsign_norm_of_norm v1 v2 : norm v1 = norm v2 -> unsign (norm v1) = unsign (norm v2).
+Proof. now intros ->. Qed.
+
 Lemma norm_sortrec v : norm (sortrec v) = norm v.
 Proof. unfold norm. now rewrite sortrec_idem. Qed.
 
